@@ -111,7 +111,7 @@ def entity_escaper(ctx):
     ctx.check(nonascii, "escapable.non-ascii", db.where(esc), "escapable class does not cover all non-ASCII characters: the final .encode('ascii') raises UnicodeEncodeError for them", "covers [^\\x00-\\x7f]")
     fn = db.func("filters.XMLEntityEscaper.escape")
     r = [n for n in walk_func(fn) if isinstance(n, ast.Return)]
-    ctx.check(bool(r) and "__escapable.sub(self.__escape, str(text))" in src(r[0].value).replace("_XMLEntityEscaper", ""), "escape.applies", db.where(fn), "escape() is %s" % (src(r[0].value) if r else None), "substitutes over str(text)")
+    ctx.check(bool(r) and "__escapable.sub(self.__escape, str(%s))" % pn(fn, 1) in src(resolve_deep(fn, r[0].value, 3)).replace("_XMLEntityEscaper", ""), "escape.applies", db.where(fn), "escape() is %s" % (src(r[0].value) if r else None), "substitutes over str(text)")
     ef = [f for n, f in db.methods("filters.XMLEntityEscaper").items() if n.endswith("__escape")]
     ctx.require(ef, "__escape not found")
     e0 = ef[0]
@@ -246,8 +246,10 @@ def handler_type(ctx):
         ctx.violation("type:filters.htmlentityreplace_errors#bytes", db.where(first), "replacement has type bytes; a codec error handler for encoding must return str")
     else:
         ctx.undecided("type:filters.htmlentityreplace_errors", db.where(first), "type of `%s` not determined" % src(first))
-    ctx.check(src(second) == "ex.end", "resume-position", db.where(second), "handler resumes at %s instead of ex.end" % src(second), "resumes at ex.end")
-    ctx.check("ex.object[ex.start:ex.end]" in src(fn), "bad-text", db.where(fn), "the unencodable slice is not ex.object[ex.start:ex.end]", "escapes exactly the unencodable slice")
+    exn = pn(fn, 0)
+    ctx.check(src(resolve_deep(fn, second, 2)) == exn + ".end", "resume-position", db.where(second), "handler resumes at %s instead of ex.end" % src(second), "resumes at ex.end")
+    slices = [src(resolve_deep(fn, x_, 2)) for x_ in walk_func(fn) if isinstance(x_, ast.Subscript) and src(x_.value) == exn + ".object"]
+    ctx.check(slices == ["%s.object[%s.start:%s.end]" % (exn, exn, exn)], "bad-text", db.where(fn), "the unencodable slice is not ex.object[ex.start:ex.end]", "escapes exactly the unencodable slice")
     ctx.check(any(isinstance(r, ast.Raise) for r in walk_func(fn)), "other-errors-reraised", db.where(fn), "non-encode errors are not re-raised", "other errors re-raised")
     reg = [c for c in db.all_calls(lambda nm: nm == "codecs.register_error", modules=["filters"])]
     ctx.require(reg, "handler not registered")
